@@ -29,9 +29,9 @@ RULE = ('Generated long-format frames (1-9 geos, 4-60 dates; shuffled rows; int 
 ASSUMPTIONS = ['dates are datetime64 or ISO strings (sortable = chronological); no duplicate (geo, date) rows; no NaN responses',
                'row-order ties in mean response (within 1e-12 relative) may appear in either order']
 EXHAUSTIVE = {'quick': False, 'thorough': False}
-MINIMA = {'quick': {'objects': 300, 'aggregates_checked': 2000, 'reject_expected': 20, 'dropped_rows_cases': 20,
+MINIMA = {'quick': {'second_live_object': 80, 'objects': 300, 'aggregates_checked': 2000, 'reject_expected': 20, 'dropped_rows_cases': 20,
                     'distinct_nontrivial': 100},
-          'thorough': {'objects': 4000, 'aggregates_checked': 30000, 'reject_expected': 300, 'dropped_rows_cases': 300,
+          'thorough': {'second_live_object': 1000, 'objects': 4000, 'aggregates_checked': 30000, 'reject_expected': 300, 'dropped_rows_cases': 300,
                        'distinct_nontrivial': 1500}}
 N = {'quick': 480, 'thorough': 6000}
 
@@ -135,6 +135,22 @@ def run_case(spec):
             'violations': violations, 'sample': {'case': desc, 'outcome': out.describe()}, 'case': desc}
   data = out.value
   counters['objects'] += 1
+  # a second, live data object over the same geos with different volumes (another response metric, say): whatever is
+  # done to it must not show in the first object's answers
+  other = None
+  if spec['idx'] % 3 == 0:
+    f2 = frame.copy()
+    geo_col = [c for c in f2.columns if c not in (resp, 'date')][0] if 'geo' not in f2.columns else 'geo'
+    try:
+      keys = f2[geo_col].astype(str)
+      factor = {k_: 0.25 + 1.5 * random.Random('%s-%d' % (k_, spec['idx'])).random() for k_ in keys.unique()}
+      f2[resp] = f2[resp].astype(float) * keys.map(factor).astype(float)
+      elig2 = emod.GeoEligibility(gen.elig_frame(rows, random.Random(spec['idx']), index_keyed=False)) if rows is not None else None
+      o2 = util.call(dmod.TBRMMData, f2, resp, elig2)
+      other = o2.value if o2.ok else None
+    except Exception:  # pylint: disable=broad-except
+      other = None
+    counters['second_live_object'] += other is not None
 
   # ---- own pivot
   vals = np.where(panel['present'], panel['values'], 0.0)
@@ -226,6 +242,8 @@ def run_case(spec):
       noncanonical_seen = True
     s = util.call(setattr, data, 'geo_index', order)
     counters['geo_index_sets'] += 1
+    if other is not None:
+      util.call(setattr, other, 'geo_index', list(order))
     if not s.ok:
       add('geo-index', 'data-geo-index:' + s.exc_type, 'geo_index=%r -> %s' % (order, s.describe()))
       break
@@ -246,6 +264,9 @@ def run_case(spec):
       m = r.randrange(1, k + 1)
       sel = r.sample(range(k), m)
       arg = set(sel) if r.random() < 0.7 else list(sel)
+      if other is not None:
+        util.call(other.aggregate_time_series, set(sel))
+        util.call(other.aggregate_geo_share, set(sel))
       ts = util.call(data.aggregate_time_series, arg)
       sh = util.call(data.aggregate_geo_share, arg)
       counters['aggregates_checked'] += 2
